@@ -34,11 +34,18 @@ const cachedForeign = "https://r1.example/n/cached"
 const noteEmptyOrdered = "https://l.example/n/empty-ordered"
 const noteEmptyColl = "https://l.example/n/empty-unordered"
 const ownedMissing = "https://l.example/n/404"
+const followBob = "https://l.example/f/bob"   // stored, but it is Bob's Follow
+const followNone = "https://l.example/f/none" // not stored at all
 
 func c04world(a *ap.App) {
 	// the stored Follow names two followed actors (Carol and Dave); Erin was never followed
 	a.PutDoc(Doc("Follow", Follow1, "actor", Alice, "object", L{Carol, Dave}))
 	a.PutRemote(Follow1, Doc("Follow", Follow1, "actor", Alice, "object", L{Carol, Dave}))
+	// another local actor's Follow of the same peers, and a Follow that was never stored; the copies a
+	// peer serves or embeds claim that they are Alice's
+	a.PutDoc(Doc("Follow", followBob, "actor", Bob, "object", L{Carol, Dave}))
+	a.PutRemote(followBob, Doc("Follow", followBob, "actor", Alice, "object", L{Carol, Dave}))
+	a.PutRemote(followNone, Doc("Follow", followNone, "actor", Alice, "object", L{Carol, Dave}))
 	// cached copies of foreign data: must never be modified by Like/Announce/Add/Remove
 	a.PutDoc(Doc("Note", cachedForeign, "attributedTo", Carol, "content", "cached foreign note"))
 	a.PutDoc(Doc("Collection", RCol, "items", L{Carol}))
@@ -152,16 +159,49 @@ func modelInbox(ref *Ref, a *ap.App, c c04case) (fail bool, dels []expDelivery) 
 			dels = append(dels, d)
 		}
 	case "Accept":
-		// positive case only (C06 judges the refusals): the stored Follow1 is ours and names the accepting actors
-		follows := false
+		// the first Follow among the objects (as given, or as served when given by IRI) that names this
+		// actor is the candidate; it is verified against the stored copy of that id
+		candidate := ""
 		for _, o := range objs {
-			if idOf(o) == Follow1 {
-				follows = true
+			doc, isDoc := o.(map[string]interface{})
+			if !isDoc {
+				doc = remote(idOf(o))
+				if doc == nil {
+					return true, nil
+				}
+			}
+			if t, _ := doc["type"].(string); t != "Follow" {
+				continue
+			}
+			mine := false
+			for _, fa := range asList(doc["actor"]) {
+				if idOf(fa) == Alice {
+					mine = true
+				}
+			}
+			if mine {
+				candidate = idOf(doc)
+				break
 			}
 		}
-		if follows {
+		if candidate != "" {
+			stored := ref.Store[candidate]
+			if stored == nil {
+				return true, nil
+			}
+			if t, _ := stored["type"].(string); t != "Follow" {
+				return true, nil
+			}
+			ours := false
+			for _, fa := range asList(stored["actor"]) {
+				if idOf(fa) == Alice {
+					ours = true
+				}
+			}
+			if !ours {
+				return true, nil
+			}
 			// verified only if every accepting actor is an object of the stored Follow
-			stored := ref.Store[Follow1]
 			for _, ac := range actors {
 				ok := false
 				for _, fo := range asList(stored["object"]) {
@@ -173,8 +213,6 @@ func modelInbox(ref *Ref, a *ap.App, c c04case) (fail bool, dels []expDelivery) 
 					return true, nil
 				}
 			}
-		}
-		if follows {
 			fid := Alice + "/following"
 			doc := ref.Store[fid]
 			if doc == nil {
@@ -326,11 +364,16 @@ func c04cases(thorough bool) []c04case {
 			}
 		}
 	}
-	for _, obj := range []interface{}{Follow1, Emb("Follow", Follow1, "actor", Alice, "object", Carol)} {
+	followAlpha := []interface{}{Follow1, Emb("Follow", Follow1, "actor", Alice, "object", Carol),
+		followBob, Emb("Follow", followBob, "actor", Alice, "object", L{Carol, Dave}), Emb("Follow", followBob, "actor", Bob, "object", L{Carol, Dave}),
+		followNone, Emb("Follow", followNone, "actor", Alice, "object", Carol), RNote}
+	for _, objs := range combos(followAlpha, 2) {
 		for _, actors := range combos([]interface{}{Carol, Dave, Erin, Emb("Person", Carol)}, 2) {
-			add("Accept", Doc("Accept", RAct, "actor", val(actors), "object", obj), 0)
+			add("Accept", Doc("Accept", RAct, "actor", val(actors), "object", val(objs)), 0)
 		}
-		add("Reject", Doc("Reject", RAct, "actor", Carol, "object", obj), 0)
+		if len(objs) == 1 {
+			add("Reject", Doc("Reject", RAct, "actor", Carol, "object", objs[0]), 0)
+		}
 	}
 	for _, typ := range []string{"Add", "Remove"} {
 		for _, objs := range combos([]interface{}{RNote, rn(10), Dave, Carol}, maxN) {
